@@ -567,7 +567,15 @@ impl LiveActor {
         result: Result<SyncFinished, ConnectError>,
     ) {
         match result {
-            Err(ConnectError::RemoteAbort(AbortReason::AlreadySyncing)) => {
+            // The peer declined because it considers a sync with us to be running. If we
+            // accepted a request of that peer in the meantime, that session will finish our
+            // state. If our state is still the dial itself, nothing else will: the peer's own
+            // request may have been lost, or the peer was still finishing a previous session.
+            // Then this dial has failed like any other, otherwise we would stay marked as
+            // running forever.
+            Err(ConnectError::RemoteAbort(AbortReason::AlreadySyncing))
+                if !self.state.is_connecting(&namespace, &peer) =>
+            {
                 debug!(?reason, "remote abort, already syncing");
             }
             res => {
